@@ -19,6 +19,7 @@ type corruption struct {
 	Desc      string     `json:"desc"`
 	Needles   [][]string `json:"needles"` // each inner list: one report must contain all of these strings
 	Unfixable bool       `json:"unfixable"`
+	Role      string     `json:"role,omitempty"` // set index value bucket the corruption lives in
 	apply     func(tx *bbolt.Tx) error
 	fixModel  func(m *kmodel.Model)
 }
@@ -73,7 +74,7 @@ func genCorruptions(r *core.Rand, e *kmodel.Engine) []*corruption {
 		roles, _ := m.Ents[kmodel.Emps][id].V["roles"].([]string)
 		for _, role := range kmodel.NormSet(roles) {
 			role := role
-			add(&corruption{Class: "set-missing-entry", Desc: fmt.Sprintf("delete %q from roles index value %q", id, role), Needles: [][]string{{"roles", id, role}},
+			add(&corruption{Class: "set-missing-entry", Role: role, Desc: fmt.Sprintf("delete %q from roles index value %q", id, role), Needles: [][]string{{"roles", id, role}},
 				apply: func(tx *bbolt.Tx) error {
 					b := bpath(tx, "stores", "indexes", "emps", "roles", role)
 					if b == nil {
@@ -249,19 +250,27 @@ func genCorruptions(r *core.Rand, e *kmodel.Engine) []*corruption {
 			}
 			return nil
 		}})
-	add(&corruption{Class: "set-extra-entry-dangling", Desc: fmt.Sprintf("roles index value r1 references %d missing ids", nAdj), Needles: sdNeedles,
-		apply: func(tx *bbolt.Tx) error {
-			b, err := bpath(tx, "stores", "indexes", "emps", "roles").CreateBucketIfNotExists([]byte("r1"))
-			if err != nil {
-				return err
-			}
-			for _, g := range ghosts {
-				if err := b.Put(tkey(g), nil); err != nil {
+	_ = sdNeedles
+	for _, role := range kmodel.RolePool {
+		role := role
+		var needles [][]string
+		for _, g := range ghosts {
+			needles = append(needles, []string{"roles", role, g})
+		}
+		add(&corruption{Class: "set-extra-entry-dangling", Role: role, Desc: fmt.Sprintf("roles index value %s references %d missing ids", role, nAdj), Needles: needles,
+			apply: func(tx *bbolt.Tx) error {
+				b, err := bpath(tx, "stores", "indexes", "emps", "roles").CreateBucketIfNotExists([]byte(role))
+				if err != nil {
 					return err
 				}
-			}
-			return nil
-		}})
+				for _, g := range ghosts {
+					if err := b.Put(tkey(g), nil); err != nil {
+						return err
+					}
+				}
+				return nil
+			}})
+	}
 	add(&corruption{Class: "set-empty-value-bucket", Desc: "empty roles index value bucket zz-empty", Needles: [][]string{{"roles", "zz-empty"}},
 		apply: func(tx *bbolt.Tx) error {
 			_, err := bpath(tx, "stores", "indexes", "emps", "roles").CreateBucketIfNotExists([]byte("zz-empty"))
@@ -510,22 +519,44 @@ func runC09(c *core.Ctx, idx int) {
 	var chosen []*corruption
 	usedClass := map[string]bool{}
 	touchedEnt := map[string]bool{}
+	classCount := map[string]int{}
+	classLimit := map[string]int{"unique-missing": 3, "set-missing-entry": 2} // several entities can miss their entries at once
+	pairedRole := ""                                                           // a missing entry and dangling references share one value bucket
 	for _, j := range r.Perm(len(all)) {
 		cand := all[j]
-		// at most one corruption per class and avoid stacking entity-field rewrites on the same description
-		if usedClass[cand.Class] {
+		// a bounded number of corruptions per class and no stacking of entity-field rewrites on the same description
+		limit := classLimit[cand.Class]
+		if limit == 0 {
+			limit = 1
+		}
+		if classCount[cand.Class] >= limit {
 			continue
+		}
+		if cand.Class == "set-missing-entry" || cand.Class == "set-extra-entry-dangling" {
+			if pairedRole != "" && cand.Role != pairedRole {
+				continue
+			}
 		}
 		key := cand.Desc
 		if touchedEnt[key] {
 			continue
 		}
-		// the three name-field rewrites and two dept/boss rewrites interfere with other name/fk classes: keep them exclusive per family
+		touchedEnt[key] = true
+		// the name-field rewrites and the dept / boss rewrites interfere with other classes of their family: exclusive per
+		// family, except for repeats of a class that may occur several times
 		fam := family(cand.Class)
-		if fam != "" && usedClass["fam:"+fam] {
+		if fam != "" && usedClass["fam:"+fam] && !(classCount[cand.Class] > 0 && limit > 1) {
 			continue
 		}
+		entryClass := cand.Class == "set-missing-entry" || cand.Class == "set-extra-entry-dangling"
+		if (entryClass && usedClass["fam:roles"]) || (fam == "roles" && classCount["set-missing-entry"]+classCount["set-extra-entry-dangling"] > 0) {
+			continue // whole-key corruptions and per-entry corruptions of the set index overwrite each other
+		}
 		usedClass[cand.Class] = true
+		classCount[cand.Class]++
+		if cand.Class == "set-missing-entry" || cand.Class == "set-extra-entry-dangling" {
+			pairedRole = cand.Role
+		}
 		if fam != "" {
 			usedClass["fam:"+fam] = true
 		}
@@ -672,8 +703,9 @@ func family(class string) string {
 		return "dept"
 	case "fk-dangling-boss", "null-in-non-nullable-fk-constraint":
 		return "boss"
-	case "set-missing-entry", "set-missing-value-key", "set-extra-entry-dangling", "set-extra-entry-existing":
+	case "set-missing-value-key", "set-extra-entry-existing":
 		return "roles"
+	// set-missing-entry and set-extra-entry-dangling may be combined with each other (same value bucket)
 	case "link-one-sided-emp-side-removed", "link-one-sided-dept-side-removed":
 		return "watch"
 	}
